@@ -152,6 +152,13 @@ func (ff *FuncFlow) classifyErrExpr(p *Program, at ast.Node, e ast.Expr, depth i
 			// package-level error value (ErrNoDocument ...): non-nil by construction
 			return RetFailure, nil
 		}
+	case *ast.SelectorExpr:
+		// qualified package-level error value (io.EOF, io.ErrUnexpectedEOF ...): non-nil by convention
+		if ff.Info.Selections[x] == nil {
+			if v, ok := ff.Info.Uses[x.Sel].(*types.Var); ok && v.Pkg() != nil && v.Parent() == v.Pkg().Scope() {
+				return RetFailure, nil
+			}
+		}
 	case *ast.UnaryExpr:
 		if x.Op == token.AND {
 			return RetFailure, nil
